@@ -5,7 +5,8 @@ from . import runner
 
 
 def run_all(tier):
-    parts = [("fds", {}), ("env", {}), ("exit", {"quick": tier == "quick"}), ("main", {})]
+    parts = [("fds", {}), ("env", {}), ("exit", {"quick": tier == "quick"}), ("main", {}),
+             ("envseq", {})]
     with cf.ThreadPoolExecutor(4) as tp:
         rs = list(tp.map(lambda pa: runner.run(pa[0], pa[1], None, timeout=300,
                                                module="vf.real.c18scn"), parts))
@@ -79,6 +80,25 @@ def run_all(tier):
                                  [c["how"], c["arg"]]))
                 if not c["sentinel_ready"] or c["alive"]:
                     viol.append((f"C18:R:exit:sentinel", str(c), [c["how"], c["arg"]]))
+        elif part == "envseq":
+            for c in res:
+                if c["error"] or len(c["seen"]) != 2 or None in c["seen"]:
+                    viol.append((f"C18:R:envseq:scenario-failed:{c['how']}", str(c)[:400], c["how"]))
+                    continue
+                for i, (got, par) in enumerate(zip(c["seen"], c["parents"])):
+                    exp = dict(par)
+                    exp["VF_OVER"] = "overlay"
+                    bad = {k: (got.get(k), exp.get(k)) for k in exp if got.get(k) != exp.get(k)}
+                    if bad:
+                        viol.append((f"C18:R:envseq:stale-environment:{c['how']}:spawn{i + 1}",
+                                     f"{c['how']}: the worker of spawn #{i + 1} sees {bad} (got, "
+                                     f"expected = parent environment at its spawn overlaid with "
+                                     f"env=)", c["how"]))
+                if c["overlay_after"] != {"VF_OVER": "overlay"}:
+                    viol.append((f"C18:R:envseq:env-mapping-modified:{c['how']}",
+                                 f"the env= mapping given by the user now has "
+                                 f"{len(c['overlay_after'])} keys", c["how"]))
+            samples.append(dict(part="envseq", example=res[0]))
         elif part == "main":
             for c in res:
                 names = [l.split()[1] for l in c["lines"]]
